@@ -261,11 +261,15 @@ func c15Run(c *ev.Ctx) {
 	}
 	// ---- reader side
 	cfgs := []readCfg{{1, false, 7}, {1, false, 65536}, {Conc: 1, WriteTo: true}, {2, false, 7}, {Conc: 2, WriteTo: true}}
+	type rframe struct {
+		o     wopts
+		n     int
+		frame []byte
+		input []byte
+	}
+	var rframes []rframe
 	for _, base := range c15WScenarios(c.Thorough()) {
 		if base.Deliv != "write3" {
-			continue
-		}
-		if !c.Next() {
 			continue
 		}
 		input := make([]byte, base.Len)
@@ -275,6 +279,25 @@ func c15Run(c *ev.Ctx) {
 		if err != nil {
 			continue
 		}
+		rframes = append(rframes, rframe{o, base.Len, frame, input})
+	}
+	// hand-built streams: concatenated legacy frames; a skippable frame followed by a frame; nothing
+	// but a skippable frame (a valid, empty stream)
+	for _, b := range baseFrames(false) {
+		switch b.Name {
+		case "legacy-x2":
+			rframes = append(rframes, rframe{wopts{Legacy: true}, -1, b.Frame, b.Content})
+		case "skip+frame":
+			rframes = append(rframes, rframe{wopts{}, -2, b.Frame, b.Content})
+			rframes = append(rframes, rframe{wopts{}, -3, b.Frame[:13], []byte{}})
+		}
+	}
+	for _, rf := range rframes {
+		if !c.Next() {
+			continue
+		}
+		base := c15W{Len: rf.n}
+		o, frame, input := rf.o, rf.frame, rf.input
 		for _, rc := range cfgs {
 			ref0, _ := runC15R(c15R{Opts: o, Len: base.Len, Frag: 4, Read: rc}, frame)
 			c.Eval(1)
